@@ -92,6 +92,9 @@ REQUIRED_BUCKETS = ["traj:ks-unc-offcentre-queried", "problem-init:acceleration-
                     "op:lanelet_q", "op:net_copy", "op:goal_reached", "op:find_shape", "op:states_at", "op:by_interval", "op:map_obstacles",
                     "lanelet_q:dyn_by_time", "lanelet_q:obstacles", "lanelet_q:merge_succ"]
 WORKERS = {"quick": 1, "thorough": 8}
+# translator tie: Gen.SrcC18 (the write sets of the read-only operations, regenerated from the working tree of commonroad-io on every
+# run by harness/translate/src_c18.py) is checked completely against the cache / own-state tables of CRModel/PyExtC18.lean
+EXTRA_MODULES = ["CRProps.T18"]
 
 # ------------------------------------------------------------------------------------------------ generators
 
@@ -1476,7 +1479,16 @@ def do_write_x(ctx, sc, pps, p):
             out = []
             seen = {}
             path = os.path.join(ctx.tmpdir(), f"x.{p['fmt']}")
-            for how in p["seq"]:
+
+            def make():
+                if p["direct"]:
+                    return (XMLFileWriter if p["fmt"] == "xml" else ProtobufFileWriter)(sc, pps, **kw)
+                return CommonRoadFileWriter(sc, pps, file_format=FileFormat.XML if p["fmt"] == "xml" else FileFormat.PROTOBUF, **kw)
+
+            def content(q):
+                data = open(q, "rb").read()
+                return re.sub(rb'date="[^"]*"', b'date=""', data, count=1) if p["fmt"] == "xml" else _erase_pb_date(data)
+            for n, how in enumerate(p["seq"]):
                 if how == "full":
                     w.write_to_file(path, OverwriteExistingFile.ALWAYS, check_validity=p["check"])
                 elif how == "skip":
@@ -1492,6 +1504,17 @@ def do_write_x(ctx, sc, pps, p):
                     first = seen.setdefault(how, data)
                     if first != data:
                         _LAST.setdefault("write_x_diff", []).append(f"{p['fmt']}:{how}")
+                if how != "skip" and "reuse_diff" not in _LAST:
+                    # oracle: an export is a read-only operation on the writer's scenario too -- what a writer that has exported
+                    # before writes is what a new writer writes through the same entry point
+                    fresh = os.path.join(ctx.tmpdir(), f"fresh.{p['fmt']}")
+                    if how == "full":
+                        make().write_to_file(fresh, OverwriteExistingFile.ALWAYS)
+                    else:
+                        make().write_scenario_to_file(fresh, OverwriteExistingFile.ALWAYS)
+                    a, b = content(path), content(fresh)
+                    if a != b:
+                        _LAST["reuse_diff"] = [n, how, len(b), len(a)]
             return out
         finally:
             # the decimal precision is process-wide in the writers: put the default back for the oracle's own exports
@@ -2244,6 +2267,11 @@ def run_case(ctx, case, with_model=True, old_pb=False):
         steps.append((mop, mode, ans, abstract(sc, pps, I, cells, s1), amb, op))
         d = first_diff(s0, s1)
         sub = {"spec": spec, "ops": ops[:i + 1]}
+        if _LAST.get("reuse_diff"):
+            n_, how_, fresh_len, got_len = _LAST["reuse_diff"]
+            ctx.fail(f"C18/write_x/reused-writer-export-differs:{op[1]['fmt']}:{how_}",
+                     f"export number {n_ + 1} ({how_}) of ONE {op[1]['fmt']} writer object differs from the export of a new writer through the same "
+                     f"entry point ({fresh_len} -> {got_len} bytes, date erased): the earlier export changed what is exported", sub)
         if d:
             ctx.fail(f"C18/{_opkey(op)}/changed:{d}", f"operation {op[:3]} changed the observable attribute {d}"
                      + (f" (it raised {res[2]})" if res[0] == "err" else ""), sub)
